@@ -50,6 +50,11 @@ CHECKS = {
    text="Exhaustive within bounds: every table shape over 5 (thorough 6) user names (absent / 2-field / 3-field line) x line orders (sorted, reversed, seeded shuffles); per table every present user with right / empty / wrong / another user's password, every absent user, empty and unknown user names; three-field lines with an empty mount column; the static store with all 16 combinations. Load must succeed and each outcome must equal Admit with the entry's mount point (default when none).",
    note="Trusts TLC and the Json module. User names with ':' '\"' newline and duplicate user names are not generated.",
    design="5 C16, 4.9"),
+ "C15": dict(
+   technique="TLA+ spec MsgLog model-checked with TLC over every crash point (scaled constants, negative control with Margin 0); TLC-generated crash schedules executed by child processes on the real commit log that SIGKILL themselves inside verif hooks; every recorded consumer step validated by TLC against the spec with the code's constants (trace validation)",
+   text="Fault enumeration bound to a model: MC explores every crash point x log length x batch position with scaled constants; on the real store child processes are killed inside the callback, after callback return, after the offset write and after the truncation check at offsets around 0, batch edges, segment edges (499-501), truncation edges (1999-2001, 2999-3001) and random ones, over 2-3 crash/restart rounds with appends before and during consumption; the trace must be a behaviour of MsgLog's consumer (state-file value at each start, in-order gap-free hand-over from the stored offset, intact payloads) and end with every entry handed over.",
+   note="Trusts TLC, the Json module, the three verif hooks in Consume. SIGKILL, not power loss. 'Replays at most the message being processed' read as inclusive resume from the stored offset (DESIGN.md 4.6).",
+   design="5 C15, 4.6"),
 }
 
 def main():
